@@ -172,6 +172,21 @@ package fclient
 //@   ensures default-port: !(ret(lookupSRV, 1) == nil && len(ret(lookupSRV, 0)) > 0) ==> len(results) == 1
 //@   loop 1: invariant 0 <= idx(1) && idx(1) <= len(records) && len(results) == idx(1) && (forall i int :: 0 <= i && i < len(results) ==> (results[i].Host == serverName && results[i].TLSServerName == string(serverName)))
 
+// the public entry point resolves with the well-known step enabled and hands on what resolveServer decides
+//@ func ResolveServer
+//@   property C16
+//@   nosafety
+//@   calls resolveServer@root with-well-known: serverName == root_serverName && checkWellKnown
+//@   ensures the-resolution: results == ret(resolveServer, 0) && err == ret(resolveServer, 1)
+
+// the request URL for a resolved destination: https, the resolved address as host, everything else as requested
+//@ func makeHTTPSURL
+//@   property C16
+//@   nosafety
+//@   requires u != nil
+//@   ensures https-to-the-resolved-address: httpsURL.Scheme == "https" && httpsURL.Host == addr && httpsURL.Path == u.Path && httpsURL.RawQuery == u.RawQuery && httpsURL.RawPath == u.RawPath
+//@   assigns nothing
+
 //@ func resolveServer
 //@   property C16
 //@   ensures invalid-name: !serverNameOK(string(serverName)) ==> err != nil
